@@ -429,6 +429,28 @@ def run(ctx):
     ctx.rule('C08.2-from_term', 'from_term: per known tag the arity guard equals 1+fields, field k comes from element k (the element to_term writes it to), tag->variant agrees with the serialiser', floor=30)
     ctx.rule('C08.2-arity-vs-spec', 'arity accepted by from_term equals the protocol arity of that operation', floor=30)
     ctx.rule('C08.2-fields-vs-spec', 'field order equals the protocol\'s field order (when the field names are a permutation of the protocol roles)', floor=25)
+    ctx.rule('C08.2-tag-space', 'the parser lets every tag of the one-byte tag space through to the dispatch: the value narrowed to the u8 tag has the proven range [0, 255], '
+             'so no tag in that space is turned away by the range test in front of the narrowing', floor=1)
+    if Bp is not None:
+        Rp = Ranges(Bp)
+        n_ = 0
+        for bb, j, st in Bp.stmts():
+            if st['k'] != '=' or st['rv']['k'] != 'cast' or st['rv'].get('ck') != 'IntToInt' or st['rv'].get('to') != 'u8':
+                continue
+            fr = st['rv'].get('from')
+            if fr in ('u8',):
+                continue
+            n_ += 1
+            lo, hi = Rp.range_of(st['rv']['op'], bb)
+            where = ctx.where(Bp, ln=st['ln'])
+            if lo > 0 or hi < 255:
+                ctx.bad('C08.2-tag-space', 'tag-narrowing', 'only tags in [%s, %s] reach the dispatch; the tag space is [0, 255], the others are turned away before the tag is looked at' % (lo, hi), where,
+                        key='RANGE:%s:tag-space' % Bp.path)
+            else:
+                ctx.ok('C08.2-tag-space', 'tag-narrowing', 'range at the narrowing is [%s, %s]' % (lo, hi), where)
+        if n_ == 0:
+            # no narrowing cast: the tag comes from a checked conversion, which accepts exactly the u8 values
+            ctx.ok('C08.2-tag-space', 'tag-narrowing', 'no narrowing cast to u8 in the parser (checked conversion)', ctx.where(Bp))
     seen_variants = set()
     if pt is not None:
         inv_enum = {d: n for n, d in enum.items()}
